@@ -13,6 +13,11 @@ ID = 'C05'
 GEN_SECTIONS = ['GenBlock', 'FP_store_events', 'FP_store_checks', 'FP_event_lib']
 COQ_TARGETS = ['Props/C05.vo']
 LEVEL = 'proof'
+MANIFEST = {
+    'text': 'Theorems (Coq): per channel, set_block accepts a block exactly when the four rules of the property hold (iff, any neighbours/index; first-block variant); the alignment rule is sign-symmetric; continuity of the whole block table is an invariant of EVERY history of add_block/set_block/get_block/register_*/write operations (induction over the operation list; append, overwrite anywhere, non-contiguous ids). The comparison form (abs) and tolerance are re-read from block.py on every run. Histories with ~45% rule-violating blocks are replayed on the implementation and on the extracted model (outcome class and full store after every call); an independent exact evaluation of the rules on decoded neighbours must agree with every accept/reject, and the final table must be continuous.',
+    'note': 'Trusted: Coq kernel; translator patterns + source fingerprints of set_block; extraction + driver; floating-point extraction of first/last/shape rows inside register_grad_event is taken from the implementation; amplitude levels are kept 2x away from the one-step threshold. Hypothesis reg_ok (no stand-alone registration with a one-element shape-id list) is needed and shown necessary by a kernel-checked counterexample.',
+    'technique': 'Rocq/Coq proof (invariant by induction over operation histories; iff characterisation of the acceptance check) + history-based correspondence',
+}
 BUDGET = {'quick': 200, 'thorough': 2400}
 MISMATCH_BUDGET = 0.0
 RULE = ('histories of 2-14 add_block/set_block calls (append, overwrite first/middle/last, non-contiguous ids) with, per '
